@@ -75,7 +75,7 @@ reg('C04', True,
     'and length are the adjacent-pair folds; parent, cost and incCost of an RRT* node are assigned together at every '
     're-parenting and parent/children links are kept two-way; where a candidate replaces a selected node under a cost '
     'comparison, the bound is the cost of the replaced node or a running cost updated in the same branch; every edge cost '
-    'or cost-to-come stored in a search tree (30 sinks in RRT*, RRTX, AIT*, EIT*, BIT*) derives from '
+    'or cost-to-come stored in a search tree (38 sinks in RRT*, RRTX, AIT*, EIT*, BIT*, FMT*, BFMT*, SST) derives from '
     'OptimizationObjective::motionCost and costs already in the tree, never from a heuristic / best-estimate function. '
     'Not decided: stored cost vs true cost for planners with deferred '
     'propagation, admissibility of heuristics, BIT*/LBTRRT incumbent idioms (listed).',
